@@ -27,17 +27,24 @@ func (x Expr) BracketString() string {
 // the expanded buffer.
 func (x Expr) Append(buf []byte, brackets ...bool) []byte {
 	bracket := 0 < len(brackets) && brackets[0]
+	// In the dot notation a descent is two dots. Descent.Append writes the
+	// first one, the second is written here and the next fragment, like a
+	// first fragment, does not start with a dot of its own.
+	afterDescent := false
 	for i, frag := range x {
 		if _, ok := frag.(Bracket); ok {
 			bracket = true
 			continue
 		}
-		buf = frag.Append(buf, bracket, i == 0)
-	}
-	if 0 < len(x) {
-		if _, ok := x[len(x)-1].(Descent); ok {
+		if afterDescent {
 			buf = append(buf, '.')
 		}
+		buf = frag.Append(buf, bracket, i == 0 || afterDescent)
+		_, afterDescent = frag.(Descent)
+		afterDescent = afterDescent && !bracket
+	}
+	if afterDescent {
+		buf = append(buf, '.')
 	}
 	return buf
 }
